@@ -36,11 +36,14 @@ type vConn struct {
 	script []byte // server -> client
 	rpos   int
 	// release[i] = {after, upto}: script bytes up to `upto` become readable once the client wrote `after` bytes
-	gateAfter  int // client bytes that must be written before script[gateFrom:] is readable
-	gateFrom   int
-	gates      [][2]int // {after, from}: script[from:] is readable only once the client wrote `after` bytes
-	cutAt      int      // -1: never; otherwise the stream ends (EOF) after cutAt bytes
-	brokenOnce *vCtx    // writes fail from the moment this context is done
+	gateAfter   int // client bytes that must be written before script[gateFrom:] is readable
+	gateFrom    int
+	gates       [][2]int // {after, from}: script[from:] is readable only once the client wrote `after` bytes
+	cutAt       int      // -1: never; otherwise the stream ends (EOF) after cutAt bytes
+	brokenOnce  *vCtx    // writes fail from the moment this context is done
+	stalledOnce *vCtx    // writes block (until their deadline, if any) from the moment this context is done
+	closeCh     chan struct{}
+	closeOnce   sync.Once
 	// paced delivery (a streaming server): from script offset paceFrom on, one packet of paceEvery bytes every pace
 	pace         time.Duration
 	paceEvery    int
@@ -63,7 +66,7 @@ type vConn struct {
 }
 
 func vNewConn(script []byte) *vConn {
-	return &vConn{script: script, cutAt: -1, failAfter: -1, maxIdle: 2}
+	return &vConn{script: script, cutAt: -1, failAfter: -1, maxIdle: 2, closeCh: make(chan struct{})}
 }
 
 func (c *vConn) readable() int {
@@ -130,7 +133,11 @@ func (c *vConn) Read(p []byte) (int, error) {
 		if c.cutAt >= 0 && c.rpos >= c.cutAt {
 			return 0, io.EOF
 		}
-		if !verifWait() {
+		var rdl int64
+		if k := len(c.readDL); k > 0 && !c.readDL[k-1].IsZero() {
+			rdl = c.readDL[k-1].UnixMilli()
+		}
+		if !verifWaitDL(rdl) {
 			// nobody else can make progress: the read deadline expires; a silent server eventually hangs up
 			c.idles++
 			if c.idles > c.maxIdle {
@@ -156,6 +163,19 @@ func (c *vConn) Write(p []byte) (int, error) {
 		c.failedWrites++
 		return 0, vConnErr{"write: broken pipe"}
 	}
+	if c.stalledOnce != nil && c.stalledOnce.cancelled {
+		// the peer has stopped reading: a write blocks until its deadline, or for ever without one
+		c.failedWrites++
+		// ... as long as anybody else can still do something (close the connection, for one)
+		var wdl int64
+		if k := len(c.writeDL); k > 0 && !c.writeDL[k-1].IsZero() {
+			wdl = c.writeDL[k-1].UnixMilli()
+		}
+		if verifAwaitClose(c.closeCh, wdl) {
+			return 0, vConnErr{"use of closed network connection"}
+		}
+		return 0, &net.OpError{Op: "write", Net: "tcp", Err: vTimeoutErr{}}
+	}
 	c.writeLens = append(c.writeLens, len(p))
 	if c.failAfter >= 0 && len(p) > c.failAfter {
 		n := c.failAfter
@@ -172,6 +192,9 @@ func (c *vConn) Write(p []byte) (int, error) {
 
 func (c *vConn) Close() error {
 	c.closed++
+	if c.closeCh != nil {
+		c.closeOnce.Do(func() { close(c.closeCh) }) // wakes a write that is blocked on a peer that stopped reading
+	}
 	return nil
 }
 
@@ -197,7 +220,8 @@ func (c *vConn) SetWriteDeadline(t time.Time) error {
 
 // vCtx is the caller's context: cancellation flips at the k-th observation (gate).
 type vCtx struct {
-	gateAt      int // -1: never cancelled
+	mu          sync.Mutex // natively the context is observed from several goroutines at once
+	gateAt      int        // -1: never cancelled
 	gates       int
 	cancelled   bool
 	done        chan struct{}
@@ -214,19 +238,28 @@ func (c *vCtx) fire(err error) {
 	c.cancelled, c.err = true, err
 	c.cancelledAt = time.Now()
 	close(c.done)
-	verifPollContexts()
 }
 
+// gate is one observation of the context; the k-th one cancels it.
 func (c *vCtx) gate() {
+	c.mu.Lock()
+	fired := c.gateLocked()
+	c.mu.Unlock()
+	if fired {
+		verifPollContexts() // derived contexts learn of it (they call back into Err)
+	}
+}
+
+func (c *vCtx) gateLocked() bool {
 	if c.cancelled {
-		return
+		return false
 	}
 	if c.expires && !time.Now().Before(c.deadline) {
 		c.fire(context.DeadlineExceeded)
-		return
+		return true
 	}
 	if c.gateAt < 0 {
-		return
+		return false
 	}
 	if c.gates == c.gateAt {
 		if c.expires {
@@ -236,15 +269,18 @@ func (c *vCtx) gate() {
 		} else {
 			c.fire(context.Canceled)
 		}
-		return
+		return true
 	}
 	c.gates++
+	return false
 }
 
 func (c *vCtx) Deadline() (time.Time, bool) { c.gate(); return c.deadline, c.hasDL }
 func (c *vCtx) Done() <-chan struct{}       { c.gate(); return c.done }
 func (c *vCtx) Err() error {
 	c.gate()
+	c.mu.Lock()
+	defer c.mu.Unlock()
 	if c.cancelled {
 		return c.err
 	}
@@ -273,8 +309,10 @@ func vNewClient(conn net.Conn, version int, compression proto.Compression, metho
 // VerifServer is a scripted ClickHouse endpoint for harnesses outside this package (chpool):
 // every dial yields a fresh simulated connection that answers the hello and then Pongs.
 type VerifServer struct {
-	mu    sync.Mutex // dials may come from several goroutines (C12)
-	conns []*vConn
+	mu     sync.Mutex // dials may come from several goroutines (C12)
+	conns  []*vConn
+	Safe   bool // hand out connections that are themselves safe for concurrent use (C12)
+	rconns []*vRConn
 }
 
 func VerifNewServer() *VerifServer { return &VerifServer{} }
@@ -292,6 +330,13 @@ func (s *VerifServer) DialContext(ctx context.Context, network, address string) 
 	for i := 0; i < 8; i++ {
 		script.uv(4)
 	}
+	if s.Safe {
+		rc := &vRConn{script: script.b, maxIdle: 1}
+		s.mu.Lock()
+		s.rconns = append(s.rconns, rc)
+		s.mu.Unlock()
+		return rc, nil
+	}
 	c := vNewConn(script.b)
 	c.maxIdle = 1
 	s.mu.Lock()
@@ -300,7 +345,7 @@ func (s *VerifServer) DialContext(ctx context.Context, network, address string) 
 	return c, nil
 }
 
-func (s *VerifServer) Dials() int        { return len(s.conns) }
+func (s *VerifServer) Dials() int        { return len(s.conns) + len(s.rconns) }
 func (s *VerifServer) Closed(i int) bool { return s.conns[i].closed > 0 }
 func (s *VerifServer) Pings(i int) int {
 	n := 0
@@ -316,6 +361,11 @@ func (s *VerifServer) OpenConns() int {
 	n := 0
 	for _, c := range s.conns {
 		if c.closed == 0 {
+			n++
+		}
+	}
+	for _, c := range s.rconns {
+		if !c.closed.Load() {
 			n++
 		}
 	}
